@@ -174,6 +174,12 @@ func (c *regexpSimplifyChecker) walk(e syntax.Expr) {
 			c.score++
 		case "{0}":
 			// Maybe {0} should be reported by another check, regexpLint?
+			if c.hasCapture(e.Args[0]) {
+				// Removing the operand would renumber the capture groups.
+				c.walk(e.Args[0])
+				out.WriteString(rep)
+				break
+			}
 			c.score++
 		case "{1}":
 			c.walk(e.Args[0])
@@ -234,6 +240,18 @@ func (c *regexpSimplifyChecker) walk(e syntax.Expr) {
 	default:
 		out.WriteString(e.Value)
 	}
+}
+
+func (c *regexpSimplifyChecker) hasCapture(e syntax.Expr) bool {
+	if e.Op == syntax.OpCapture || e.Op == syntax.OpNamedCapture {
+		return true
+	}
+	for _, a := range e.Args {
+		if c.hasCapture(a) {
+			return true
+		}
+	}
+	return false
 }
 
 func (c *regexpSimplifyChecker) walkGroup(g syntax.Expr) {
